@@ -69,8 +69,9 @@ class Native:
 
 class OpaqueProc:
     """the procedure argument of map / for-each / the folds: its calls are the observable events"""
-    def __init__(self, tag, trace):
-        self.tag, self.trace, self.k = tag, trace, 0
+    def __init__(self, tag, trace, falsy=()):
+        # falsy: the calls (1-based) that return #f — what the procedure returns is its own business, the library must not care
+        self.tag, self.trace, self.k, self.falsy = tag, trace, 0, frozenset(falsy)
 
     def __repr__(self):
         return "#<%s>" % self.tag
@@ -331,7 +332,7 @@ class Eval:
             raise Diverges("evaluation does not terminate within the step bound")
         if isinstance(f, OpaqueProc):
             f.k += 1
-            r = Atom("%s#%d" % (f.tag, f.k))
+            r = False if f.k in f.falsy else Atom("%s#%d" % (f.tag, f.k))
             self.trace.append(("call", f.tag, tuple(args), r))
             return r
         if isinstance(f, Native):
